@@ -48,10 +48,11 @@ type Cfg struct {
 	MonitorHistory  int      `json:"monitor_history,omitempty"`
 	BasePath        string   `json:"base_path,omitempty"`
 	Lua             string   `json:"lua,omitempty"`
+	SMTPForceTLS    bool     `json:"smtp_force_tls,omitempty"` // implicit-TLS SMTP listener (real TCP only)
 	// Go listeners registered before / after the Lua host on the before-events.
 	PreHost  func(h *extension.Host) `json:"-"`
 	PostHost func(h *extension.Host) `json:"-"`
-	NoHTTP          bool     `json:"-"`
+	NoHTTP   bool                    `json:"-"`
 }
 
 // DefaultCfg accepts and stores everything, local naming, mem store.
@@ -116,6 +117,13 @@ func ProcessCfg(c Cfg) (*config.Root, error) {
 	setList("SMTP_REJECTORIGINDOMAINS", c.RejectOrigin)
 	set("SMTP_MAXRECIPIENTS", fmt.Sprint(c.MaxRecipients))
 	set("SMTP_MAXMESSAGEBYTES", fmt.Sprint(c.MaxMessageBytes))
+	if c.SMTPForceTLS {
+		cert, key := TLSFiles()
+		set("SMTP_TLSENABLED", "true")
+		set("SMTP_FORCETLS", "true")
+		set("SMTP_TLSCERT", cert)
+		set("SMTP_TLSPRIVKEY", key)
+	}
 	set("SMTP_TIMEOUT", "60s")
 	set("POP3_TIMEOUT", "60s")
 	set("SMTP_DOMAIN", "inbucket.test")
